@@ -7,6 +7,7 @@ then runs the given checks (default: the property named in meta.json) against th
 stores everything as /verif/seeded/<property>-<name>/ (patch.diff, demo.py, meta.json with what was run).
 """
 import json, os, shutil, subprocess, sys, tempfile
+HOME = os.environ.get("VERIF_HOME", "/verif")   # a worktree of /verif may run the drills with its own harness
 
 out = sys.argv[1].rstrip("/")
 meta = json.load(open(os.path.join(out, "meta.json")))
@@ -16,7 +17,7 @@ name = f"{pid}-{'r2' if '/mut2/' in out else 'r3' if '/mut3/' in out else 'r4' i
 wt = tempfile.mkdtemp(prefix="seed-", dir="/tmp")
 os.rmdir(wt)
 scratch = tempfile.mkdtemp(prefix="seed-out-", dir="/tmp")
-shutil.copy("/verif/lean/.lake/build/bin/drv", os.path.join(scratch, "drv"))
+shutil.copy(os.path.join(HOME, "lean/.lake/build/bin/drv"), os.path.join(scratch, "drv"))
 env = dict(os.environ, PYTHONPATH=wt, PYTHONDONTWRITEBYTECODE="1")
 
 def sh(cmd, **kw):
@@ -40,14 +41,14 @@ try:
         res["demo_patched_tail"] = (r.stdout + r.stderr).strip()[-300:]
         for c in checks:
             e2 = dict(os.environ, VERIF_REPO=wt, VERIF_OUT=scratch, VERIF_DRV=os.path.join(scratch, "drv"))
-            r = sh(f"cd /verif && ./check {c} --no-audit", env=e2)
+            r = sh(f"cd {HOME} && ./check {c} --no-audit", env=e2)
             lines = [l for l in r.stdout.splitlines() if "VIOLATION" in l or "KNOWN" in l or "seed=" in l]
             detail = ""
             for l in lines:
                 if "replay=" in l:
                     rp = l.split("replay=")[1].split()[0]
                     try:
-                        d = json.load(open(os.path.normpath(os.path.join("/verif", rp))))
+                        d = json.load(open(os.path.normpath(os.path.join(HOME, rp))))
                         detail = json.dumps(d.get("violation") or d.get("no_longer_checks"))[:400]
                     except Exception:
                         pass
@@ -66,7 +67,7 @@ print(json.dumps({"name": name, "confirmed": res["confirmed"], "suite": res.get(
                   "demo_patched": res.get("demo_patched_rc"), "caught_by": caught, "with_input": with_input,
                   "detail": {c: v["detail"][:200] for c, v in res["checks"].items()}}, indent=1))
 if confirmed:
-    dst = os.path.join("/verif/seeded", name)
+    dst = os.path.join(HOME, "seeded", name)
     os.makedirs(dst, exist_ok=True)
     shutil.copy(os.path.join(out, "patch.diff"), dst)
     shutil.copy(os.path.join(out, "demo.py"), dst)
